@@ -21,7 +21,7 @@ ENGINE = 'E1 grid'
 RULE = ('one case = (input string, validation level, entry point); inputs are distinct mutations / strings by construction '
         '(duplicates removed); non-trivial = the input is not one of the valid seed messages')
 ASSUMPTIONS = [
-    'mutations of one seed message per version; junk strings up to length 4 (5) over {M S H | ^ ~ \\ & CR 2 . 5 A}',
+    'mutations of one seed message per version; junk strings up to length 4 (5) over {M S H | ^ ~ \\ & CR 2 . 5 A blank sharp-s}',
     'accepted outcomes: a value, an HL7apyException subclass, or (STRICT only) ValueError raised for a value invalid for its datatype',
 ]
 
@@ -178,6 +178,15 @@ def mutations(v):
             ls = list(lines)
             ls[li] = rep + ls[li][3:] if rep != '' else ''
             yield 'segment-id', '\r'.join(ls)
+    # every segment name the version defines, in the place of every segment of the seed (withdrawn segments, segments with
+    # odd table rows, batch / file headers ...), and Z names that change length in upper case
+    for li in range(1, len(lines)):
+        for rep in sorted(common.libs()[v].SEGMENTS) + ['Z\xdfA', 'z\xdf1', 'Z_A', 'Z__']:
+            if len(rep) != 3:
+                continue
+            ls = list(lines)
+            ls[li] = rep + ls[li][3:]
+            yield 'segment-id-any', '\r'.join(ls)
     for li in range(len(lines) + 1):
         ls = list(lines)
         ls.insert(li, '')
@@ -191,7 +200,7 @@ def mutations(v):
     yield 'trailing-cr', s + '\r\r'
 
 
-JUNK = 'MSH|^~\\&\r2.5A'
+JUNK = 'MSH|^~\\&\r2.5A \xdf'
 
 
 def junk_strings(n):
